@@ -40,6 +40,9 @@ def flat_atoms(v, depth=0):
                         out.add((o, ops | {"cmp"}))
     for k, f in v.fields.items():
         if k.startswith("#"):
+            if k == "#may:key":
+                for (o, ops) in flat_atoms(f, depth + 1):
+                    out.add((o, ops | {"key"}))
             continue
         out |= flat_atoms(f, depth + 1)
     return out
@@ -50,6 +53,12 @@ def exact_origins(v):
 
 
 def all_origins(v):
+    """origins of the value itself (what merely selected it - storage key, query argument - is left out)"""
+    return {o for (o, ops) in flat_atoms(v) if "key" not in ops}
+
+
+def dep_origins(v):
+    """everything the value depends on, including what selected it"""
     return {o for (o, ops) in flat_atoms(v)}
 
 
@@ -146,7 +155,7 @@ class PredFalse(Cut):
 
 
 def origin_match(v, pat, require_all=True, exact_only=False):
-    at = [(o, ops) for (o, ops) in flat_atoms(v) if not o.startswith("Const(error")]
+    at = [(o, ops) for (o, ops) in flat_atoms(v) if not o.startswith("Const(error") and "key" not in ops]
     if exact_only:
         at = [(o, ops) for (o, ops) in at if not ops - {"cmp"}]
     if not at:
